@@ -878,7 +878,10 @@ ARBITRARY = ["", " ", "\t", "\n", "http://", "https://", "//", "/", "#", "?", "h
              "mytwitter.com/i", "xt.me/s", "t.me.evil.org/s", "docs.google.com.evil.org/document/d", "http://evil.org/docs.google.com/document/d/e/pub", "http://x@docs.google.com@evil.org/document/d/e/x/pub",
              "//[", "//[x/posts/", "[.twitter.com/i", "[.t.me/s", "[.facebook.com/x/posts", "[.instagram.com/p", "[@twitter.com/i", "[@t.me/s", "[@facebook.com/groups/", "[@instagram.com/p", "twitter.com:[", "t.me:[", "facebook.com:[/posts", "instagram.com:[", "docs.google.com:[", "youtube.com:[", "[", "]", ". ", "..", "/.", "/videos/", "posts/", "/ ",
              "FACEBOOK.COM/GROUPS/", "TWITTER.COM/I", "T.ME/S", "YOUTU.BE/", "https://facebook.com\\groups\\", "facebook.com/groups/\n", " facebook.com/posts/ ", "https://twitter.com/i\t", "fb.me", "fb.me/", "x.com", "t.me",
-             "youtu.be", "twitter.com", "instagram.com", "docs.google.com", "facebook.com", "youtube.com", "%", "%zz", "http://%41.com/", "http://a.com/%", "a" * 300, "http://" + "a." * 80 + "com/"]
+             "youtu.be", "twitter.com", "instagram.com", "docs.google.com", "facebook.com", "youtube.com", "%", "%zz", "http://%41.com/", "http://a.com/%", "a" * 300, "http://" + "a." * 80 + "com/",
+             # inputs deeper than the interpreter's recursion limit for each construct a parser may follow recursively
+             "twitter.com/" + "#!" * 3000, "https://x.com/#!/" + "#!/" * 2000 + "user", "https://www.youtube.com/watch?" + "next=%2Fwatch%3F" * 1500 + "v=abc", "youtube.com/" + "#/watch?v=abc" * 1500,
+             "https://www.facebook.com/" + "l.php?u=" * 2000 + "x", "t.me/" + "s/" * 3000, "https://docs.google.com/" + "document/d/" * 2500, "instagram.com/" + "p/" * 3000, "facebook.com/" + "a/" * 3000 + "posts/1"]
 
 ID_ALPHA = "abcdefghijklmnopqrstuvwxyzABCDEFGHIJKLMNOPQRSTUVWXYZ0123456789_-"
 
